@@ -9,13 +9,14 @@ from .common import AT4_API, AT5_API, SOCKET, SOCK_CLS, fn_of
 
 LEVEL = "other"
 EXPLANATION = (
-    "Static analysis of both api.py and the socket: R1 in every update_* method and _process_console_version_update the old record is read "
-    "before the new one is stored, every notification is control-dependent on `old != new`, every path on which they differ notifies exactly "
-    "once (so identical reports notify nobody and changed ones always do); R2 the identifier passed is the entity's own id; R3 AC updates "
-    "notify _subscribers | _subscribers_ac_state, zone forwarding notifies _subscribers only and goes through _notify_subscribers, each AC "
-    "subscribes _zone_updated to exactly its own zones; subscribers are never awaited outside _notify_subscribers; R4 all subscriber "
-    "containers are sets mutated only by add/discard of the parameter in the subscribe*/unsubscribe* methods; R5 per-callback exception "
-    "isolation in the three _notify_subscribers (C07.R7 re-used). Ordering between concurrently completing callbacks is not decided."
+    "Static analysis of both api.py and the socket: R1 in every update_* method and _process_console_version_update the old record is read before"
+    " the new one is stored, every notification is control-dependent on `old != new`, every path on which they differ notifies exactly once (so "
+    "identical reports notify nobody and changed ones always do); R2 the identifier passed is the entity's own id; R3 AC updates notify "
+    "_subscribers | _subscribers_ac_state, zone forwarding notifies _subscribers only and goes through _notify_subscribers, each AC subscribes "
+    "_zone_updated to exactly its own zones; subscribers are never awaited outside _notify_subscribers; R4 all subscriber containers are sets "
+    "mutated only by add/discard of the parameter in the subscribe*/unsubscribe* methods; R6 stored records are never mutated in place (no "
+    "attribute store or mutating call on a stored record or on the incoming one), which would defeat the old != new comparison; R5 per-callback "
+    "exception isolation in the three _notify_subscribers (C07.R7 re-used). Ordering between concurrently completing callbacks is not decided."
 )
 ASSUMPTIONS = ["dataclass __eq__ compares all fields (the records are @dataclass without eq=False)", "set.add is idempotent, set.discard removes"]
 FLOORS = {"C12.R1": 27, "C12.R2": 9, "C12.R3": 8, "C12.R4": 20, "C12.R5": 3, "C12.R6": 1}
